@@ -89,9 +89,19 @@ def bounded(check, tier):
               "length <= 3: the same runs as the list form", bound="items<=3")
     forms = [("tuple", tuple), ("iter", iter), ("generator", lambda xs: (x for x in xs)), ("map", lambda xs: map(lambda x: x, xs)),
              ("reversed", lambda xs: reversed(xs[::-1]))]
+    def sizes():
+        return [len(x.chunks) for x in seps + pool if hasattr(x, "chunks")]
+    size0 = sizes()
     for sep in seps:
         for n in range(0, 4):
             for items in itertools.product(pool, repeat=n):
+                if sizes() != size0:
+                    # join changed one of its operands (they are shared by all cases of this suite and may keep growing): the suite
+                    # has its verdict and stops here
+                    s.fail("C06.FmtStr.join.frame", dict(sep=describe(sep), items=[describe(x) for x in items][:3]),
+                           f"an operand of an earlier join was changed in place: run counts {size0} -> {sizes()}")
+                    s.done()
+                    return
                 want = cells(sep.join(list(items)))
                 wanttext = (sep.s).join(x if isinstance(x, str) else x.s for x in items)
                 for name, form in forms:
